@@ -58,8 +58,10 @@ func (lockH) Generate(property string, seed uint64, tier string) *Case {
 		if g.IntN(3) == 0 {
 			op.Kind = "trylock"
 		}
-		if g.IntN(6) == 0 {
-			op.HoldMs = cfg.TTLSec*1000 + g.IntN(4000) // long hold (kept alive by keep-alives on etcd)
+		if g.IntN(6) == 0 && cfg.Backend == "etcd" {
+			// a hold longer than the TTL, kept alive by keep-alives (the Redis lock has no
+			// keep-alive: its holders stay within the lease only while they hold < TTL)
+			op.HoldMs = cfg.TTLSec*1000 + g.IntN(4000)
 		}
 		if property == "C19" && g.IntN(3) == 0 {
 			op.Loss = []string{"revoke", "pause"}[g.IntN(2)]
@@ -78,7 +80,14 @@ type lockBackend interface {
 	revoke(key string) bool
 	// pause cuts contender i off for d.
 	pause(i int, d time.Duration)
-	// lossTime returns when the server dropped the lock that contender i acquired at t (zero if it did not).
+	// holderToken identifies the current holder's lock at the server (etcd: its lease id; 0 = none).
+	holderToken(key string) int64
+	// revokeToken drops that lock at the server (session loss); false if it is already gone.
+	revokeToken(key string, token int64) bool
+	// lossTime returns when the server dropped the lock identified by token (zero = it did not).
+	lossTime(token int64, acquiredAt time.Time, ttl time.Duration) time.Time
+	// keepsAlive reports whether a holder may hold longer than the TTL (keep-alives).
+	keepsAlive() bool
 	close()
 }
 
@@ -121,6 +130,15 @@ func (b *etcdLockBackend) holderLease(key string) int64 {
 func (b *etcdLockBackend) revoke(key string) bool {
 	return false
 }
+
+func (b *etcdLockBackend) holderToken(key string) int64 { return b.holderLease(key) }
+func (b *etcdLockBackend) revokeToken(key string, token int64) bool {
+	return b.srv.RevokeLease(token)
+}
+func (b *etcdLockBackend) lossTime(token int64, _ time.Time, _ time.Duration) time.Time {
+	return b.srv.LeaseEndOf(token)
+}
+func (b *etcdLockBackend) keepsAlive() bool { return true }
 
 func (b *etcdLockBackend) pause(i int, d time.Duration) {
 	b.sim.Pause(fmt.Sprintf("etcd-c%d", i), d)
@@ -184,7 +202,6 @@ func (lockH) Execute(c *Case, res *Result) {
 	var losses []*lossRec
 	overlapSince := map[int]time.Time{} // lost-but-untold holder coexisting with a new holder since
 	lossActive := map[int]bool{}
-	etcdB, _ := be.(*etcdLockBackend)
 	for who := 0; who < cfg.Contenders; who++ {
 		who := who
 		sim.Go(func() {
@@ -255,10 +272,8 @@ func (lockH) Execute(c *Case, res *Result) {
 					}
 				}
 				holders[who], inside[who] = true, true
-				var lease int64
-				if etcdB != nil {
-					lease = etcdB.holderLease(key)
-				}
+				acquiredAt := time.Now()
+				lease := be.holderToken(key)
 				mu.Unlock()
 				// watch the lock context: the holder must be told when it loses the lock
 				doneCh := make(chan struct{})
@@ -295,8 +310,7 @@ func (lockH) Execute(c *Case, res *Result) {
 					mu.Unlock()
 					switch op.Loss {
 					case "revoke":
-						if etcdB != nil && lease != 0 {
-							etcdB.srv.RevokeLease(lease)
+						if lease != 0 && be.revokeToken(key, lease) {
 							myLoss.lossAt = time.Now()
 							res.Probes["lease_revoked"]++
 						} else {
@@ -307,8 +321,8 @@ func (lockH) Execute(c *Case, res *Result) {
 						res.Probes["holder_paused"]++
 					}
 					time.Sleep(hold - hold/4)
-					if op.Loss == "pause" && etcdB != nil && lease != 0 {
-						if t := etcdB.srv.LeaseEndOf(lease); !t.IsZero() {
+					if op.Loss == "pause" && lease != 0 {
+						if t := be.lossTime(lease, acquiredAt, ttl); !t.IsZero() {
 							myLoss.lossAt = t
 						}
 					}
